@@ -9,7 +9,7 @@ import props, vlib
 def c10(tier):
     t0 = time.time()
     q = tier == 'quick'
-    n = 6000 if q else 200000
+    n = 30000 if q else 200000
     wd = vlib.workdir('C10-' + tier)
     out = os.path.join(wd, 'codec.ndjson')
     verdict = vlib.Verdict('C10')
@@ -32,7 +32,7 @@ def c10(tier):
                           % ((p.stderr or '')[-200:].strip() or 'rc=%s' % p.returncode, len(good), n),
                           {'kind': 'codec-abort', 'seed': vlib.seed(), 'count': n, 'completed': len(good)})
         n = len(good)
-    files = vlib.shard_lines(out, 1 if q else 10, wd, 'codec') if n else []
+    files = vlib.shard_lines(out, 4 if q else 10, wd, 'codec') if n else []
     states = 0
     ends = 0
     kinds = {}
